@@ -397,7 +397,10 @@ func runCheck(pc *PropConfig, tier string, seed int, writeBaseline, verbose bool
 	// a function under contract is gone (renamed / restructured): its obligations cannot be generated. The
 	// property-level scenario replays decide whether the behaviour is still there.
 	var standins []map[string]any
-	if len(out.unbound) > 0 || len(out.undecided) > 0 || len(out.violations) > 0 || tier == "thorough" {
+	// The witness scenarios are cheap (one go test each) and run in both tiers: they are the bounded stand-ins
+	// for the functions outside the verifier's reach (reflection, goroutines) and the replay for obligations
+	// whose models are not directly executable. They are recorded separately and never counted as discharged.
+	{
 		for _, sc := range pc.Scenarios {
 			rp, ok := replayers[sc]
 			if !ok || len(rp.Inputs) > 0 {
